@@ -47,7 +47,7 @@ impl Prop for C28 {
 
     fn runs(tier: Tier) -> u64 {
         match tier {
-            Tier::Quick => 150_000,
+            Tier::Quick => 400_000,
             Tier::Thorough => 15_000_000,
         }
     }
